@@ -105,7 +105,8 @@ Inductive event :=
 | EReap (c : nat)
 | ETimer (c : nat)
 | EGrace
-| EDrain.
+| EDrain
+| ERecoverPanic.      (* OnChildRecover panics: the deferred shutdownChildren runs, the panic goes on to the caller *)
 
 (* ---- Go map operations on childProcs ---- *)
 Definition map_delete (pid : Z) (m : list (Z * nat)) : list (Z * nat) :=
@@ -261,6 +262,11 @@ Definition step (c : cfg) (s : state) (e : event) : option state :=
   | EDrain =>
       match ph s with
       | PGrace er | PKilled er => if all_done (kids s) then Some (with_ph (PReturned er) s) else None
+      | _ => None
+      end
+  | ERecoverPanic =>
+      match ph s with
+      | PRecCb _ _ => Some (begin_teardown ErrPanic s)
       | _ => None
       end
   end.
